@@ -408,10 +408,14 @@ def smtlibscript_from_formula(formula: FNode, logic: Optional[Union[str, int, Lo
     script.add(name=smtcmd.SET_LOGIC,
                args=[smt_logic])
 
-    # Declare all types
+    # Declare all types (a parametric sort is declared once, however
+    # many of its instances occur in the formula)
     types = get_env().typeso.get_types(formula, custom_only=True)
+    declared = []
     for type_ in types:
-        script.add(name=smtcmd.DECLARE_SORT, args=[type_.decl])
+        if type_.decl not in declared:
+            declared.append(type_.decl)
+            script.add(name=smtcmd.DECLARE_SORT, args=[type_.decl])
 
     deps = formula.get_free_variables()
     # Declare all variables
